@@ -1,5 +1,5 @@
 """C08 — encoding to LaTeX and converting back to text returns the original string."""
-import json, os, random, unicodedata, collections
+import json, os, random, unicodedata, collections, itertools
 import l2tharness as H
 from common import w_str, w_bool, show_str, VERIF
 
@@ -95,6 +95,13 @@ def gen_cases(seed, tier):
                 if any(l in s for l in LIG):
                     continue
                 cases.append(_case(s, rnd.choice(SCHEMES), rnd.choice([False, True]), 'class-pair'))
+    # whitespace runs: every run of up to 3 spaces / newlines between letters, table characters and at the ends
+    tab = [c for c in alpha if ord(c) in D]
+    for n in (1, 2, 3):
+        for ws in itertools.product(' \n', repeat=n):
+            ws = ''.join(ws)
+            for l, r_ in (('a', 'b'), (rnd.choice(tab), rnd.choice(tab)), ('', 'b'), ('a', ''), (rnd.choice(tab), '1')):
+                cases.append(_case(unicodedata.normalize('NFC', l + ws + r_), rnd.choice(SCHEMES), rnd.choice([False, True]), 'whitespace-run'))
     asc = [c for c in alpha if ord(c) < 128]
     for _ in range(3000 if quick else 60000):
         n = rnd.randint(2, 8)
@@ -134,10 +141,33 @@ def oracle(c):
     except Exception as e:
         return ('roundtrip-raised-%s' % type(e).__name__, {'message': str(e)[:200]})
     if txt != s:
+        if txt == _para_norm(s):
+            # a whitespace run with two or more newlines is a paragraph break: latex2text renders it as exactly
+            # two newlines whatever stood between the first and the last one (known finding, see known_findings.json)
+            return ('paragraph-whitespace-collapsed', {'encoded': latex, 'converted_back': txt})
         bad = [ch for ch in s if _single_fails(ch, d)]
         sig = 'char-not-invertible:U+%04X' % ord(bad[0]) if bad else 'neighbours-interfere'
         return (sig, {'encoded': latex, 'converted_back': txt})
     return None
+
+
+def _para_norm(s):
+    out, i = [], 0
+    while i < len(s):
+        if s[i] in ' \n':
+            j = i
+            while j < len(s) and s[j] in ' \n':
+                j += 1
+            run = s[i:j]
+            if run.count('\n') >= 2:
+                a, b = run.index('\n'), run.rindex('\n')
+                run = run[:a] + '\n\n' + run[b + 1:]
+            out.append(run)
+            i = j
+        else:
+            out.append(s[i])
+            i += 1
+    return ''.join(out)
 
 
 def _single_fails(ch, d):
